@@ -958,7 +958,14 @@ class SFrame:
         if columns is None:
             if self.concrete():
                 return wrap(self.to_real().rename(mapper, index=index, axis=axis, **kw))
-            raise Inconclusive("DataFrame.rename(index)")
+            mp = index if index is not None else mapper
+            if isinstance(self._index, _pd.Index) and mp is not None:
+                r = SFrame()
+                r._cols = dict(self._cols)
+                f = mp if callable(mp) else (lambda x: mp.get(x, x))
+                r._index = _pd.Index([f(x) for x in self._index], name=self._index.name)
+                return r
+            raise Inconclusive("DataFrame.rename(index) on an integer/symbolic index")
         f = columns if callable(columns) else (lambda c: columns.get(c, c))
         r = SFrame()
         r._cols = {f(k): c for k, c in self._cols.items()}
